@@ -30,6 +30,9 @@ PAYLOADS = {
     'selfcancel': [['D', 1], ['CANCEL', 'v', 'self'], ['INSTANT'], ['D', 1]],
     'instant': [['INSTANT'], ['INSTANT']],
     'graceful': [['ONCANCEL', [['D', 2]], [['D', 3]]], ['INSTANT']],
+    # suspended inside an until block whose child ends / fails in the time step of the cancel
+    'until': [['UNTIL', 'vu', ['DELAY', 2], [['DO', 'g', [['D', 1]]], ['ETERNITY']]], ['INSTANT']],
+    'untilfail': [['UNTIL', 'vu', ['ETERNITY'], [['DO', 'g', [['D', 1], ['RAISE', 'KeyError', 'g']]], ['ETERNITY']]], ['INSTANT']],
 }
 STARTS = [None, {'after': 1}, {'at': 1}]
 
@@ -131,6 +134,9 @@ def lifecycle(ctx, snaps, program, faults):
             msgs.append('awaiters received different outcomes: %r vs %r' % (vals[0], (k, d)))
             break
     payload_exc = [x for x in ctx.raised if x.args and str(x.args[0]).endswith('@v')]
+    # (a payload whose own child failed ends with the Concurrent of that failure: the object that left the payload)
+    payload_exc += [r[4] for r in log if r[0] == 'abort' and r[1] == 'v' and isinstance(r[4], Concurrent)
+                    and all(any(c is x for x in ctx.raised) for c in r[4].children)]
     for k, d, t_end, t_start, act in results:
         if isinstance(d, (CancelTask,)):
             continue        # the awaiter itself was disturbed (not expected here)
